@@ -155,7 +155,8 @@ class DirectoryRecord:
                  'index_in_parent', 'dr_len', 'xattr_len', 'file_flags',
                  'file_unit_size', 'interleave_gap_size', 'len_fi', 'isdir',
                  'orig_extent_loc', 'data_length', 'seqnum', 'is_root',
-                 'parent', 'rock_ridge', 'xa_record', 'file_ident')
+                 'parent', 'rock_ridge', 'xa_record', 'file_ident',
+                 'orig_offset')
 
     FILE_FLAG_EXISTENCE_BIT = 0
     FILE_FLAG_DIRECTORY_BIT = 1
@@ -182,6 +183,9 @@ class DirectoryRecord:
         self.rock_ridge = None  # type: Optional[rockridge.RockRidge]
         self.xa_record = None  # type: Optional[XARecord]
         self.inode = None  # type: Optional[inode.Inode]
+        # The byte offset in the original ISO that this record was found at
+        # while walking the directories, or -1 if it didn't come from there.
+        self.orig_offset = -1
 
     def parse(self, vd, record, parent):
         # type: (headervd.PrimaryOrSupplementaryVD, bytes, Optional[DirectoryRecord]) -> str
